@@ -498,6 +498,13 @@ func (oc *objectCache) get(obj types.Object) (val interface{}, errs []error) {
 	}()
 	switch obj := obj.(type) {
 	case *types.Var:
+		if !isWireMarkerType(obj.Type()) {
+			// Only variables holding the result of a Wire marker function can
+			// be items of a provider set. Do not look into the initialiser of
+			// anything else (it may live in another package or in the standard
+			// library, far from the mistake).
+			return nil, []error{fmt.Errorf("%v is not a provider or a provider set", obj)}
+		}
 		spec := oc.varDecl(obj)
 		if spec == nil || len(spec.Values) == 0 {
 			return nil, []error{fmt.Errorf("%v is not a provider or a provider set", obj)}
@@ -1177,6 +1184,25 @@ func isWireImport(path string) bool {
 		path = path[i+len(vendorPart):]
 	}
 	return path == "github.com/google/wire"
+}
+
+// isWireMarkerType reports whether t is one of the types returned by the
+// marker functions of the wire package (ProviderSet, Binding, ProvidedValue,
+// StructProvider, StructFields).
+func isWireMarkerType(t types.Type) bool {
+	n, ok := t.(*types.Named)
+	if !ok {
+		return false
+	}
+	obj := n.Obj()
+	if obj.Pkg() == nil || !isWireImport(obj.Pkg().Path()) {
+		return false
+	}
+	switch obj.Name() {
+	case "ProviderSet", "Binding", "ProvidedValue", "StructProvider", "StructFields":
+		return true
+	}
+	return false
 }
 
 func isProviderSetType(t types.Type) bool {
